@@ -116,9 +116,12 @@ theorem matrixLitTy_combos (ev : Ev) (rows : List (String × RowM)) (cs : List C
 
 theorem matrixLitTy_expr_open (ev : Ev) (rows : List (String × RowM)) (e : E)
     (h : ∀ el d, ev e ≠ some (Ty.arr el d)) : matrixLitTy ev rows (.expr e) = emptyLoose := by
-  unfold matrixLitTy
-  simp only
-  trace_state
+  show (match ev e with
+    | some (.arr elem _) =>
+      (match Ty.merge (.obj (rows.foldl (fun ps kr => Ty.setProp kr.1 (rowTy ev kr.2) ps) []) none) elem with
+      | .obj ps m => Ty.obj ps m
+      | _ => emptyLoose)
+    | _ => emptyLoose) = emptyLoose
   split
   · next elem d heq => exact absurd heq (h elem d)
   · rfl
